@@ -719,6 +719,10 @@ func (sel *Selection) GetValue(pathOrIdent string) (val.Value, error) {
 	if err != nil {
 		return nil, err
 	}
+	if s == nil {
+		// a container or list entry on the way is not there: no value
+		return nil, nil
+	}
 	return s.Get()
 }
 
